@@ -431,7 +431,9 @@ func runOnce(c Case, bound time.Duration) (v kit.Verdict, slow bool) {
 	if ret, perr := s.ProxyReturned(0); ret {
 		early, earlyErr = true, perr
 	}
-	if early && c.State != "idle-no-alpn" {
+	if early && c.State != "idle-no-alpn" && c.Event != "closing-first" {
+		// (closing-first: the channel was closed before the call; giving up at any point of the
+		// setup, also after the upstream connection stands, is the expected answer)
 		v.Addf("C10/setup/"+c.State+"/proxy-returned-early", "Config.Proxy returned while the session was being set up: %v", earlyErr)
 	}
 
